@@ -3,17 +3,20 @@ import DnsVerif.Lemmas.AddrEmit
 
 /-! # Encoder limits, part 1: primitives (properties C08 and the encoder half of C01)
 
-Output-length bookkeeping and exact error behaviour of the primitive writers
-(`Enc.put`, `Enc.cstr`, `encCstrs`, `encName`, `encNameU`, `setLen`, `setAddrLen`), for ALL
-values and ALL encoder states (no well-formedness premise).
+Output-length bookkeeping and exact error behaviour of the primitive writers (`Enc.put`,
+`Enc.cstr`, `encCstrs`, `encName`, `encNameU`), for ALL values and ALL encoder states (no
+well-formedness premise). Files of the series: `EncLimPrim` → `EncLimWin` (back-patches, loops) →
+`EncLimBody` (fields, options, APL items, SvcParams) → `EncLimRR` (records) → `EncLimDns`
+(messages) → `EncLimMsg` (entry points, the theorems of C08, known findings).
 
-Vocabulary used by the record and message level files:
+Vocabulary used throughout:
 * `Step e e' k`: `e'.out = e.out ++ x` for some `x` of at most `k` octets (so the old output is
-  untouched, only grows, by at most `k` octets) and the weak table invariant `IdxLe` is kept;
+  untouched and the output only grows, by at most `k` octets) and the weak table invariant `IdxLe`
+  is kept;
 * `IdxLe e`: every offset in the compression table is `≤ 0x3FFF` (implied by `EInv S e`, hence
-  true in every reachable state; kept by every writer for every value, which `EInv` is not: `EInv`
+  true in every reachable state; kept by every writer for EVERY value, which `EInv` is not: `EInv`
   needs well-formed names);
-* `Cause e err S A1 A2 sz`: the classification of an error returned by a writer started in state
+* `Cause e err S A1 A2 C sz`: the classification of an error returned by a writer started in state
   `e` on a value of uncompressed size `sz`. -/
 
 namespace EncLim
